@@ -91,7 +91,7 @@ def gen_library(tape, need_stage=False):
                 x.get("start", pstart) < pstart for x in cons)
         cons.append(c)
     sc["consumers"] = cons
-    span = tape.choice([6, 12, 24, 48, 72])
+    span = tape.weighted([(6, 8), (12, 8), (24, 8), (48, 8), (72, 8), (900, 1)])      # now and then a long run
     sc["end"] = pstart + span
     if prod == "csv":
         last = pstart + sum(sc["gaps"])
@@ -154,7 +154,7 @@ def run_library(sc):
     if sc["prod"] == "cbgen":
         prod = CallbackGenerator({"o": (lambda t: H(t), fm.Info(time=None, grid=fm.NoGrid(), units=pu))},
                                  T(pstart), timedelta(hours=sc["pstep"]))
-        ptimes = [pstart + k * sc["pstep"] for k in range(0, 400)]
+        ptimes = [pstart + k * sc["pstep"] for k in range(0, max(400, (sc["end"] - pstart) // sc["pstep"] + 80))]
         pout = "o"
     else:
         ptimes = [pstart]
